@@ -33,7 +33,11 @@ LEVEL_TEXT = ("Machine-checked proof (Coq, closed under the global context) that
               "first_finding for every program.")
 LEVEL_NOTE = ("The unrestricted property is false for the code as it is (seven known findings); the theorem covers "
               "exactly the complement of their shapes.  A finding shape is a superset of the actual divergences "
-              "(e.g. any call after truncate counts, although flush after truncate is harmless).  The theorem "
+              "(e.g. any call after truncate counts, although flush after truncate is harmless); the oracle "
+              "therefore accepts as the registered stale-after-truncate finding only its own observables (wrong "
+              "READ results; positions/contents in append mode or when read-ahead was pending at the truncate) "
+              "and reports any other disagreement after a truncate (tell, where a write lands, final contents) as "
+              "a violation.  The theorem "
               "carries the hypothesis fuel_suffices (the executable model's loop bound is large enough -- a model "
               "artefact, evaluated on every generated program by the run).  Mutators returning None in paramiko "
               "but a count in Python are compared by effect only; Python 'x' is compared with paramiko 'wx'; for "
@@ -292,6 +296,16 @@ def gen_case(rng, disciplined):
                ("FRead", None)]
         k = rng.randrange(0, len(ops) + 1)
         ops = ops[:k] + pat + ops[k:]
+    if not disciplined and mode in ("r+", "w+", "w", "x") and rng.random() < 0.4:
+        # truncate BELOW the current position with nothing pending, then tell / write (must leave a zero-filled
+        # hole) / tell / flush: a local file keeps its position across truncate()
+        p0 = rng.randrange(4, 30)
+        cut = rng.randrange(0, p0)
+        pat = [("FSeek", p0, 0)] if rng.random() < 0.5 else [("FWrite", bytes(rng.choice(b"ab\n") for _ in range(p0))),
+                                                             ("FSeek", 0, 1)]
+        pat += [("FTruncate", cut), ("FTell",), ("FWrite", bytes(rng.choice(b"cd") for _ in range(rng.randrange(1, 4)))),
+                ("FSeek", 0, 1), ("FTell",)]
+        ops = ops[:rng.randrange(0, 3)] + [("FSeek", 0, 1)] + pat
     if disciplined:
         ops = discipline(ops, mode)
         if mode != "r" and rng.random() < 0.25:
@@ -363,16 +377,15 @@ def shape_code(case, pre):
     return 0
 
 
-def first_guard(case, local_res, sftp_res, pre, upto):
+def first_guard(case, local_res, sftp_res, pre, upto, content_only=False):
     mode, ops = case[0], case[4]
     if mode == "xbare":
         return "bare-x-mode-not-writable"
     truncated = False
+    rb_at_trunc = 0
     for i, o in enumerate(ops[:upto + 1]):
         rb, wb = pre[i]
         k = o[0]
-        if truncated:
-            return "state-stale-after-truncate"
         if k == "FSeek" and local_res[i] == [0] and sftp_res[i] != [0]:
             return "seek-to-negative-position-accepted"
         if k in READ_OPS and wb > 0:
@@ -386,7 +399,19 @@ def first_guard(case, local_res, sftp_res, pre, upto):
                 return "truncate-allowed-on-read-only-file"
             if wb > 0:
                 return "truncate-ignores-unflushed-write-buffer"
+            if not truncated:
+                rb_at_trunc = rb
             truncated = True
+    if truncated:
+        # (other finding shapes met after the truncate were recognised above and take precedence)
+        # the registered finding is about what truncate() leaves STALE: the client read buffer (if it held
+        # read-ahead), the append-mode _size/_pos, and the served file object's own buffer -- observable as
+        # wrong READ results, or as wrong positions/contents in append mode or after a truncate with
+        # read-ahead pending.  Anything else that differs after a truncate (tell(), the offset a write lands
+        # at, the final contents of a non-append file whose read buffer was empty) is NOT that finding.
+        if rb_at_trunc > 0 or mode in ("a", "a+") or (not content_only and ops[upto][0] in READ_OPS):
+            return "state-stale-after-truncate"
+        return None
     return None
 
 
@@ -458,10 +483,14 @@ def evaluate(ctx, loop, case, disciplined, want_model=True):
         elif diff is not None:
             what = "call %d (%s) returns a different value than on the local file" % (diff, case[4][diff][0])
         if diff is not None or scont != lcont:
-            key = first_guard(case, lres, sres, pre, max(diff, 0) if diff is not None else len(case[4]) - 1)
+            content_only = all(a == b for a, b in zip(sres, lres))
+            key = first_guard(case, lres, sres, pre, max(diff, 0) if diff is not None else len(case[4]) - 1,
+                              content_only)
             if key is None:
-                key = "refinement:" + ("no-finding-shape" if shape_code(case, pre) == 0
-                                       else "before-the-first-finding-shape")
+                sc = shape_code(case, pre)
+                key = "refinement:" + ("no-finding-shape" if sc == 0 else
+                                       "after-truncate-position-or-contents" if sc == 7 else
+                                       "before-the-first-finding-shape")
             ctx.fail(key, KEYS.get(key, what) if key in KEYS else what, case=desc,
                      expected={"results": lres, "content": lcont}, observed={"results": sres, "content": scont})
         # programs outside the model: reads after truncate (server-side file-object buffer), negative positions
